@@ -380,6 +380,11 @@ def e6(ctx):
                     return is_const(x) and is_const(y)
                 ok = bounded(x, y, fs)
                 if not ok:
+                    # what every path to the site shares, although no single dominating branch says it
+                    more = common_path_literals(ev, a)
+                    if more and (set(more) - fs):
+                        ok = bounded(x, y, fs | set(more))
+                if not ok:
                     # operands that come out of a call chosen by a dispatch (`f = match kind { A => Self::a, B => Self::b }; f(..)`): judged per chosen call
                     ph = chosen_call_join([x, y])
                     if ph is not None:
